@@ -1069,3 +1069,4 @@ fn show_post_sync_stats(ctx: &SyncContext) {
         info!("Nothing to do!");
     }
 }
+#[cfg(rjrssync_verif)] pub(crate) mod verif_hooks { include!(concat!(env!("RJRSSYNC_VERIF_HARNESS"), "/hooks_boss_sync.rs")); }
